@@ -236,6 +236,8 @@ def contains(sx, container, item, st, node):
                 item = sx.coerce(item, t.elem, st)
             except Unsupported:
                 return [(st, z3.BoolVal(False), None)]
+        if not isinstance(t.elem, V._Bool):
+            st.assume(z3.Implies(z3.Select(container.term, item.term), sx.set_ne_fun(t)(container.term)))
         return [(st, z3.Select(container.term, item.term), None)]
     if isinstance(t, V.Dict):
         if item.ty != t.k:
